@@ -1277,7 +1277,10 @@ class CallMixin(object):
                 new = u.fresh("ins", u.ElemsSort)
                 k = u.fresh_int("k")
                 st.assume(new[0] == item.z)
-                st.assume(z3.ForAll([k], z3.Implies(z3.And(0 <= k, k < n), new[k + 1] == old[k])))
+                oldc = u.fresh("insold", u.ElemsSort)
+                st.assume(oldc == old)
+                st.assume(z3.ForAll([k], z3.Implies(z3.And(0 <= k, k < n), new[k + 1] == oldc[k]),
+                                    patterns=[oldc[k], new[k + 1]]))
                 st.heap["$at"] = z3.Store(st.heap["$at"], r, new)
                 st.heap["$len"] = z3.Store(st.heap["$len"], r, n + 1)
                 return st, self.mk_none()
@@ -1295,7 +1298,10 @@ class CallMixin(object):
                     val = self.seq_get(st, recv, z3.IntVal(0))
                     new = u.fresh("pop", u.ElemsSort)
                     k = u.fresh_int("k")
-                    st.assume(z3.ForAll([k], z3.Implies(z3.And(0 <= k, k < n - 1), new[k] == old[k + 1])))
+                    oldc = u.fresh("popold", u.ElemsSort)
+                    st.assume(oldc == old)
+                    st.assume(z3.ForAll([k], z3.Implies(z3.And(0 <= k, k < n - 1), new[k] == oldc[k + 1]),
+                                        patterns=[new[k], oldc[k + 1]]))
                     st.heap["$at"] = z3.Store(st.heap["$at"], r, new)
                     st.heap["$len"] = z3.Store(st.heap["$len"], r, n - 1)
                     return st, val
